@@ -98,6 +98,16 @@ pub fn gen(rng: &mut Rng, tier: Tier) -> Scn {
         let at = rng.below(s.ops.len() as u64 + 1) as usize;
         s.ops.insert(at, TimedOp { when, op: Op::QueryAccessors });
     }
+    // set_complete(): later adds are refused, but the objects already queued still start - and must be announced -
+    // afterwards (multiplexing, start times, lower-priority queues)
+    if rng.chance(0.15) {
+        let when = match rng.below(3) {
+            0 => When::AtUs(0),
+            1 => When::AfterPkt(rng.range(0, 40)),
+            _ => When::AtUs(rng.range(0, 300_000)),
+        };
+        s.ops.push(TimedOp { when, op: Op::SetComplete });
+    }
     // max_transfer_count = 0 (the object is still transmitted once): it must be announced like any other
     if rng.chance(0.06) {
         let i = rng.below(s.objects.len() as u64) as usize;
